@@ -4,6 +4,8 @@
 //   * VFRRT (RRT guided by a user vector field) on R^n
 //   * TSRRT (task-space RRT) on R^n with the (x, y) task space
 //   * STRRTstar on a space-time space (R^2 x time, speed limit, static and moving obstacles, bounded or unbounded time)
+//   * XXL with a grid decomposition of the (x, y) position (R^n and SE2)
+//   * LightningRetrieveRepair on a generated experience database (paths recorded "in another environment": partly invalid now)
 // Histories: first solve, optionally a continued solve, optionally clear() + solve. Oracle: the C01 clauses (status <-> problem
 // definition, valid start, raw bounds, dense validity / own motion re-check, goal reached or truthful approximate flag and difference).
 #include <sstream>
@@ -14,6 +16,10 @@
 #include "ompl/geometric/planners/rrt/STRRTstar.h"
 #include "ompl/geometric/planners/rrt/TSRRT.h"
 #include "ompl/geometric/planners/rrt/VFRRT.h"
+#include "ompl/geometric/planners/experience/LightningRetrieveRepair.h"
+#include "ompl/tools/lightning/LightningDB.h"
+#include "ompl/geometric/planners/xxl/XXL.h"
+#include "ompl/geometric/planners/xxl/XXLPositionDecomposition.h"
 
 namespace ob = ompl::base;
 namespace og = ompl::geometric;
@@ -41,7 +47,7 @@ vf::Config vf::config()
 // ---------------------------------------------------------------------------------------------------------------------------------
 // shared judgement of one solve() outcome on a plan::Problem (clauses of C01); `strict` = re-check every consecutive pair
 static void judge(vf::Ctx &c, const char *name, const std::string &pkey, Problem &P, ob::PlannerStatus st, bool rejected, const std::string &why, size_t solBefore,
-                  bool strict, bool bidir, bool firstSolve)
+                  bool strict, bool bidir, bool firstSolve, bool unrecognizedMeansNoInput = false)
 {
     size_t nsol = P.pdef->getSolutionCount();
     if (rejected)
@@ -72,7 +78,9 @@ static void judge(vf::Ctx &c, const char *name, const std::string &pkey, Problem
             c.failOrKnown(!P.goalOk[0] ? std::string(KP "/untruthful-INVALID_GOAL(first-goal-state-invalid)") : KP "/untruthful-INVALID_GOAL" + pkey,
                           vf::fmt("%s returned INVALID_GOAL although a valid, sampleable goal state exists", name));
         if (st == ob::PlannerStatus::UNRECOGNIZED_GOAL_TYPE)
-            VCHECK(c, P.goalKind == 2, KP "/untruthful-UNRECOGNIZED_GOAL_TYPE" + pkey, "%s returned UNRECOGNIZED_GOAL_TYPE for a sampleable goal", name);
+            // (the retrieve-repair planner answers with this status whenever it got no start or no goal state)
+            VCHECK(c, P.goalKind == 2 || (unrecognizedMeansNoInput && (!anyStart || !anyGoal || !P.startOk[0] || !P.goalOk[0])),
+                   KP "/untruthful-UNRECOGNIZED_GOAL_TYPE" + pkey, "%s returned UNRECOGNIZED_GOAL_TYPE for a sampleable goal", name);
         VCHECK(c, st != ob::PlannerStatus::CRASH, KP "/status-CRASH" + pkey, "%s returned CRASH", name);
         return;
     }
@@ -121,7 +129,7 @@ static void judge(vf::Ctx &c, const char *name, const std::string &pkey, Problem
 
 // history shared by the fixtures on plan::Problem: solve [-> solve again] [-> clear + solve]
 static void runHistory(vf::Src &s, vf::Ctx &c, const char *name, const std::string &pkey, Problem &P, const ob::PlannerPtr &pl, double budgetScale, bool strict,
-                       bool bidir)
+                       bool bidir, bool unrecognizedMeansNoInput = false)
 {
     int steps = 1 + (int)s.weighted({5, 3, 2});
     bool first = true;
@@ -160,7 +168,7 @@ static void runHistory(vf::Src &s, vf::Ctx &c, const char *name, const std::stri
             rejected = true;
             why = e.what();
         }
-        judge(c, name, pkey, P, st, rejected, why, before, strict, bidir, first);
+        judge(c, name, pkey, P, st, rejected, why, before, strict, bidir, first, unrecognizedMeansNoInput);
         if (rejected)
             return;
         first = false;
@@ -704,9 +712,162 @@ static void fixtureSTRRT(vf::Src &s, vf::Ctx &c)
     }
 }
 
+
+// ---------------------------------------------------------------------------------------------------------------------------------
+// fixture 5: LightningRetrieveRepair on a generated experience database
+static void fixtureLightning(vf::Src &s, vf::Ctx &c)
+{
+    ProblemOpts o;
+    static const int kinds[] = {SP_RN, SP_SE2, SP_SE3};
+    o.forceKind = kinds[s.weighted({4, 3, 1})];
+    o.singleStart = true;  // "Get a single start state TODO: more than one"
+    std::shared_ptr<Problem> P;
+    try
+    {
+        P = genProblem(s, o);
+    }
+    catch (const ompl::Exception &e)
+    {
+        throw vf::Skip{std::string("problem construction rejected: ") + e.what()};
+    }
+    const PlanSpace &ps = P->ps;
+    auto db = std::make_shared<ompl::tools::LightningDB>(ps.space);
+    int npaths = 1 + (int)s.pick(4);
+    std::string desc;
+    for (int k = 0; k < npaths; ++k)
+    {
+        og::PathGeometric ep(P->si);
+        int nst = 2 + (int)s.pick(6);
+        // experiences recorded in another environment: positions anywhere in the box (possibly inside today's obstacles); the first one
+        // usually runs from near the start to near the goal, possibly reversed
+        bool related = k == 0 && s.chance(200);
+        bool reversed = related && s.flag();
+        double sx, sy, gx, gy;
+        ps.xy(P->starts[0], sx, sy);
+        ps.xy(P->goals[0], gx, gy);
+        desc += vf::fmt("  experience %d:", k);
+        for (int i = 0; i < nst; ++i)
+        {
+            double x = s.real(ps.lo + 0.05, ps.hi - 0.05), y = s.real(ps.lo + 0.05, ps.hi - 0.05);
+            if (related && (i == 0 || i == nst - 1))
+            {
+                bool atStart = (i == 0) != reversed;
+                x = std::min(ps.hi, std::max(ps.lo, (atStart ? sx : gx) + s.real(-0.4, 0.4)));
+                y = std::min(ps.hi, std::max(ps.lo, (atStart ? sy : gy) + s.real(-0.4, 0.4)));
+            }
+            ob::State *st = P->si->allocState();
+            ps.makeState(s, st, x, y);
+            ep.append(st);
+            P->si->freeState(st);
+            desc += vf::fmt(" (%.3g,%.3g)", x, y);
+        }
+        desc += "\n";
+        double t;
+        db->addPath(ep, t);
+    }
+    auto pl = std::make_shared<og::LightningRetrieveRepair>(P->si, db);
+    int rp = (int)s.weighted({3, 2, 2});
+    if (rp == 1)
+        pl->setRepairPlanner(std::make_shared<og::RRT>(P->si));
+    else if (rp == 2)
+        pl->setRepairPlanner(std::make_shared<og::KPIECE1>(P->si));
+    c.context("LightningRetrieveRepair");
+    c.count("fixture:Lightning");
+    c.count("planner:LightningRetrieveRepair");
+    c.note("planner=LightningRetrieveRepair repair=%s experiences=%d\n%s%s", rp == 0 ? "default" : rp == 1 ? "RRT" : "KPIECE1", npaths, desc.c_str(), P->str().c_str());
+    runHistory(s, c, "LightningRetrieveRepair", "/LightningRetrieveRepair", *P, pl, 2, false, true, true);
+}
+
+// ---------------------------------------------------------------------------------------------------------------------------------
+// fixture 6: XXL with a one-layer grid decomposition of the workspace position
+struct XYDecomp : og::XXLPositionDecomposition
+{
+    ob::SpaceInformationPtr si;
+    const PlanSpace *ps;
+    mutable ompl::RNG rng;
+    mutable ob::StateSamplerPtr sampler;
+    XYDecomp(const ob::RealVectorBounds &b, const std::vector<int> &slices, bool diag, const ob::SpaceInformationPtr &s, const PlanSpace *p)
+      : og::XXLPositionDecomposition(b, slices, diag), si(s), ps(p)
+    {
+    }
+    int numLayers() const override
+    {
+        return 1;
+    }
+    bool sampleFromRegion(int r, ob::State *st, const ob::State *seed = nullptr) const override
+    {
+        return sampleFromRegion(r, st, seed, 0);
+    }
+    bool sampleFromRegion(int r, ob::State *st, const ob::State *seed, int) const override
+    {
+        std::vector<int> cell;
+        ridToGridCell(r, cell);
+        double x = bounds_.low[0] + (cell[0] + rng.uniform01()) * cellSizes_[0], y = bounds_.low[1] + (cell[1] + rng.uniform01()) * cellSizes_[1];
+        x = std::min(x, bounds_.high[0]);
+        y = std::min(y, bounds_.high[1]);
+        if (seed)
+            si->copyState(st, seed);
+        else
+        {
+            if (!sampler)
+                sampler = si->allocStateSampler();
+            sampler->sampleUniform(st);
+        }
+        if (ps->kind == SP_RN)
+        {
+            st->as<ob::RealVectorStateSpace::StateType>()->values[0] = x;
+            st->as<ob::RealVectorStateSpace::StateType>()->values[1] = y;
+        }
+        else
+            st->as<ob::SE2StateSpace::StateType>()->setXY(x, y);
+        return true;
+    }
+    void project(const ob::State *st, std::vector<double> &coord, int = 0) const override
+    {
+        coord.resize(2);
+        ps->xy(st, coord[0], coord[1]);
+    }
+    void project(const ob::State *st, std::vector<int> &layers) const override
+    {
+        std::vector<double> c;
+        project(st, c, 0);
+        layers.resize(1);
+        layers[0] = coordToRegion(c);
+    }
+};
+static void fixtureXXL(vf::Src &s, vf::Ctx &c)
+{
+    ProblemOpts o;
+    o.forceKind = s.flag() ? SP_SE2 : SP_RN;
+    std::shared_ptr<Problem> P;
+    try
+    {
+        P = genProblem(s, o);
+    }
+    catch (const ompl::Exception &e)
+    {
+        throw vf::Skip{std::string("problem construction rejected: ") + e.what()};
+    }
+    ob::RealVectorBounds b(2);
+    b.setLow(P->ps.lo);
+    b.setHigh(P->ps.hi);
+    std::vector<int> slices{2 + (int)s.pick(9), 2 + (int)s.pick(9)};
+    bool diag = s.flag();
+    auto dec = std::make_shared<XYDecomp>(b, slices, diag, P->si, &P->ps);
+    auto pl = std::make_shared<og::XXL>(P->si, dec);
+    if (s.flag())
+        pl->setRandWalkRate(s.real(0, 1));
+    c.context("XXL");
+    c.count("fixture:XXL");
+    c.count("planner:XXL");
+    c.note("planner=XXL grid=%dx%d diagonal=%d\n%s", slices[0], slices[1], (int)diag, P->str().c_str());
+    runHistory(s, c, "XXL", "/XXL", *P, pl, 1, false, true);
+}
+
 void vf::run_case(Src &s, Ctx &c)
 {
-    int fx = (int)s.weighted({5, 2, 2, 4});
+    int fx = (int)s.weighted({10, 4, 4, 8, 4, 2});  // sums to 32
+
     if (fx != 3)
     {
         unsigned seed = 1 + (unsigned)s.u(0, 1000000);
@@ -724,8 +885,14 @@ void vf::run_case(Src &s, Ctx &c)
         case 2:
             fixtureTSRRT(s, c);
             break;
-        default:
+        case 3:
             fixtureSTRRT(s, c);
+            break;
+        case 4:
+            fixtureLightning(s, c);
+            break;
+        default:
+            fixtureXXL(s, c);
     }
 }
 
